@@ -56,7 +56,10 @@ class LeaveOneOutPseudoLikelihood(ExactMarginalLogLikelihood):
         """
         output = self.likelihood(function_dist, *params)
         m, L = output.mean, output.lazy_covariance_matrix.cholesky(upper=False)
-        m = m.reshape(*target.shape)
+        # the batch shapes of the marginal and of the target broadcast against each other (as in log_prob)
+        batch_shape = torch.broadcast_shapes(m.shape[:-1], target.shape[:-1])
+        m = m.expand(*batch_shape, m.size(-1))
+        target = target.expand(*batch_shape, target.size(-1))
         identity = torch.eye(*L.shape[-2:], dtype=m.dtype, device=m.device)
         sigma2 = 1.0 / L._cholesky_solve(identity, upper=False).diagonal(dim1=-1, dim2=-2)  # 1 / diag(inv(K))
         mu = target - L._cholesky_solve((target - m).unsqueeze(-1), upper=False).squeeze(-1) * sigma2
